@@ -8,7 +8,10 @@ Configurations (vlib/c11_util.py): the same window is also requested and read th
 templates -- prefix spelling, sparse / documented-idiom / nested bodies, expr forms, item kinds,
 literal / variable / absent attributes -- with int, text or callable parameter values, each compiled
 template re-rendered with changing values; all are reduced to the same 14-field records and judged by
-the same model.  Every recorded case carries the last calls of its compiled template (replay repeats
+the same model.  Two further dimensions are drawn per render / per configuration: what the elements are (numbers,
+a permutation, None, other false values, numbers with None holes -- the answer to "do elements remain" must not
+depend on the value of the next element) and the order options (reverse, reverse_expr, sort, sort_expr and their
+combinations -- the window is then a window over the shown order, the items are compared with that order).  Every recorded case carries the last calls of its compiled template (replay repeats
 them), and a violating window is re-rendered on a fresh compile to tell history-dependent faults apart.
 """
 import itertools
@@ -21,7 +24,8 @@ RULE = ('exhaustive grid over (length,start,end,size,orphan,overlap) passed thro
         '(one compiled template), a literal-attribute sample, previous/next attribute modes, '
         'seeded larger tuples, and link-following traversals; a case is non-trivial when the '
         'sequence is non-empty and at least one batch parameter is effective (>0); distinct = '
-        'distinct (mode,length,start,end,size,orphan,overlap,container[,configuration,value forms]) tuples. '
+        'distinct (mode,length,start,end,size,orphan,overlap,container[,configuration,value forms][,element content,'
+        'reverse_expr value]) tuples. '
         'Every grid point and every larger tuple is rendered a second time through one of 20 long-lived '
         'variant templates (vlib/c11_util.designed_cfgs: a twin of the main source, prefix= with the 14 '
         'variables read through the prefix spelling wholly / flags only / all but flags / alternating / not at '
@@ -36,7 +40,20 @@ RULE = ('exhaustive grid over (length,start,end,size,orphan,overlap) passed thro
         'spelling mask, body layout, item kind).  Half of the link traversals run on a variant template and '
         'feed the printed next-sequence-start-number back as text.  The previous/next attribute forms are '
         'rendered with dashed or prefix-spelled variables and int or text values.  All of them are reduced to '
-        'the same 14-field record per displayed element and judged by the one window model.')
+        'the same 14-field record per displayed element and judged by the one window model.  '
+        'What the elements ARE is drawn per render of every variant / random configuration, of a 1/8 sample of grid '
+        'points on the main template, of 30% of the larger tuples and of half of the traversals (content: element k '
+        'is k | a permutation of 1..n | every element None | None, 0, "", (), 0.0, False in turn | numbers with '
+        'None holes; bare, as text, as the value of (key,value) pairs, mappings and objects): the window, the '
+        'flags and the links must not depend on it and the item shown for number k must be the k-th element.  The '
+        'options that change the shown ORDER are a dimension of the configurations (10 long-lived variants and the '
+        'random ones: reverse, reverse_expr="1"/"0", reverse_expr=variable switched between renders of one '
+        'compiled template, sort=sequence-item / sort=v, sort+reverse, sort_expr, sort_expr+reverse_expr, '
+        'sort="v/cmp/desc"): the window laws are then judged over the shown order, with windows that reach or '
+        'overshoot the end, and link traversals walk reversed / sorted sequences.  The previous / next attribute '
+        'forms are rendered under the same order options and element contents (a function of the parameters).  '
+        'Object elements are as false as their value, and besides list / tuple / counting iterator the sequence is '
+        'also an instance of a class of the caller (subscription and length only).')
 ASSUMPTIONS = ['start/end <= 0 and size < 1 mean "not given" (DT_In docstring, int_param)',
                'where only `end` is given the statement does not fix `start`: only range, '
                'contiguity, end=min(end,length) and the link equations are demanded',
@@ -45,6 +62,14 @@ ASSUMPTIONS = ['start/end <= 0 and size < 1 mean "not given" (DT_In docstring, i
                'call callables); no other value types are demanded',
                'prefix=p offers sequence-x as p_x and every other variable y-z as p_y_z (pinned test '
                'test__setitem__getitem__, property C10); both spellings must show the same window and links',
+               'the statement speaks of elements, of how many remain / precede and of their numbers, never of '
+               'their values: None, 0, "", (), 0.0 and False are elements like any other (a 2-tuple is a '
+               '(key,value) pair by the DT_In docstring, so bare tuples other than () are not used)',
+               'reverse / reverse_expr / sort / sort_expr only change the order the sequence is shown in (DT_In '
+               'docstring, C13): with them the window laws hold over the shown order; sorting is only combined with '
+               'distinct int / text keys (ordering itself is C13), element k of the shown order is then the k-th '
+               'smallest (text order for text elements), reversed when a reverse option holds; a reverse_expr whose '
+               'value is false does not reverse',
                'the opt postcondition wrapper and the sys.monitoring anchors are diagnosis only: '
                'inconclusive is decided from the output-level comparisons']
 SHARD_TIMEOUT = {'quick': 600, 'thorough': 3000}
@@ -188,24 +213,34 @@ class OptMonitor:
 
 
 # ---------------------------------------------------------------- one render
-def render(T, seq, vals, forms):
+def render(T, seq, vals, forms, rv=None):
     if T.literal:
         return T.tmpl(seq=seq)
     if T.cfg is None:
         st, en, sz, orp, ovl = vals
         return T.tmpl(seq=seq, st=st, en=en, sz=sz, orp=orp, ovl=ovl)
-    return T.tmpl(seq=seq, inner=list(U.INNER), **U.namespace(vals, forms))
+    return T.tmpl(seq=seq, inner=list(U.INNER), **U.namespace(vals, forms, T.cfg, rv))
 
 
-def call_record(length, vals, container, forms):
-    return {'length': length, 'vals': list(vals), 'container': container, 'forms': forms}
+def call_record(length, vals, container, forms, content='num', rv=None):
+    r = {'length': length, 'vals': list(vals), 'container': container, 'forms': forms}
+    if content != 'num':
+        r['content'] = content
+    if rv is not None:
+        r['rv'] = rv
+    return r
 
 
-def check_window(ctx, mon, T, mode, length, st, en, sz, orp, ovl, container, forms='iiiii'):
+def check_window(ctx, mon, T, mode, length, st, en, sz, orp, ovl, container, forms='iiiii', content='num',
+                 rv=None):
     cfg = T.cfg
     vals = (st, en, sz, orp, ovl)
     case = {'mode': mode, 'length': length, 'start': st, 'end': en, 'size': sz,
             'orphan': orp, 'overlap': ovl, 'container': container}
+    if content != 'num':
+        case['content'] = content
+    if rv is not None:
+        case['rv'] = rv
     if T.literal:
         case['src'] = T.src
     if cfg is not None:
@@ -214,19 +249,21 @@ def check_window(ctx, mon, T, mode, length, st, en, sz, orp, ovl, container, for
         # earlier calls of the same compiled template (replay repeats them first)
         case['history'] = list(T.hist)
     nontriv = length > 0 and (st > 0 or en > 0 or sz > 0)
+    extra = () if content == 'num' and rv is None else (content, repr(rv))
     if cfg is None:
-        ctx.case((mode, length, st, en, sz, orp, ovl, container), nontriv)
+        ctx.case((mode, length, st, en, sz, orp, ovl, container) + extra, nontriv)
     else:
-        ctx.case((mode, length, st, en, sz, orp, ovl, container, U.cfg_key(cfg), forms), nontriv)
+        ctx.case((mode, length, st, en, sz, orp, ovl, container, U.cfg_key(cfg), forms) + extra, nontriv)
     kind = cfg['items'] if cfg else 'int'
-    seq = U.make_seq(length, container, kind)
+    seqorder = cfg.get('seqorder') if cfg else None
+    seq = U.make_seq(length, container, kind, content)
     del mon.bad[:]
-    T.hist.append(call_record(length, vals, container, forms))
+    T.hist.append(call_record(length, vals, container, forms, content, rv))
     T.renders += 1
     if cfg is not None:
         note_variant(ctx, T, vals, forms)
     try:
-        out = render(T, seq, vals, forms)
+        out = render(T, seq, vals, forms, rv)
     except Exception as e:
         mech = None
         ctx.violation('batched render raised %s: %s' % (type(e).__name__, str(e)[:120]),
@@ -256,13 +293,22 @@ def check_window(ctx, mon, T, mode, length, st, en, sz, orp, ovl, container, for
     except ValueError as e:
         ctx.violation(str(e), case, detail={'output': raw[:600]})
         return None
-    nums = [int(r[0]) for r in recs]
-    items = [int(r[1]) for r in recs]
+    try:
+        nums = [int(r[0]) for r in recs]
+    except ValueError:
+        ctx.violation('sequence-number is not a number in %r' % raw[:80], case, detail={'output': raw[:600]})
+        return None
+    items = [r[1] for r in recs]
     s, e = nums[0], nums[-1]
     if nums != list(range(s, e + 1)):
         problems.append('non-contiguous run %r' % nums)
-    if items != nums:
-        problems.append('elements %r shown for numbers %r' % (items, nums))
+    # the element shown for number k is the k-th element of the shown order (the input order unless the
+    # configuration sorts / reverses), whatever the elements are
+    shown = U.expected_items(length, kind, content, seqorder, rv)
+    if all(1 <= k <= length for k in nums):
+        want_items = [shown[k - 1] for k in nums]
+        if items != want_items:
+            problems.append('elements %r shown for numbers %r, expected %r' % (items[:8], nums[:8], want_items[:8]))
     if not (1 <= s <= e <= length):
         problems.append('window %d..%d outside 1..%d' % (s, e, length))
     ms, me, only_end = model(length, st, en, sz, orp)
@@ -321,6 +367,7 @@ def check_window(ctx, mon, T, mode, length, st, en, sz, orp, ovl, container, for
                     problems.append('previous batch ends at %s, expected start-1+overlap=%d' % (pe, s - 1 + ovl))
     if cfg is not None:
         note_judged(ctx, T, cfg, s, e, length)
+    note_content(ctx, T, kind, content, seqorder, rv, s, e, length)
     if problems:
         detail = {'output': raw[:600]}
         what = '; '.join(problems[:4])
@@ -330,8 +377,8 @@ def check_window(ctx, mon, T, mode, length, st, en, sz, orp, ovl, container, for
             # diagnosis: does a fresh compile of the same source show the same thing for the same values?
             try:
                 from DocumentTemplate.DT_HTML import HTML
-                fresh = render(U.T(HTML, T.src, cfg=cfg, literal=T.literal), U.make_seq(length, container, kind),
-                               vals, forms)
+                fresh = render(U.T(HTML, T.src, cfg=cfg, literal=T.literal),
+                               U.make_seq(length, container, kind, content), vals, forms, rv)
             except Exception as ex:
                 fresh = 'raised %s' % type(ex).__name__
             if fresh != raw:
@@ -348,6 +395,41 @@ def check_window(ctx, mon, T, mode, length, st, en, sz, orp, ovl, container, for
                     (num(first_r[6]), num(first_r[7]), num(first_r[8])) if s > 1 else None,
                     (num(last_r[9]), num(last_r[10]), num(last_r[11])) if e < length else None)
     return s, e, nxt, prv, step
+
+
+def note_content(ctx, T, kind, content, seqorder, rv, s, e, length):
+    """Evidence for the element-value and shown-order classes (output level: a judged window)."""
+    name = content.partition(':')[0]
+    ctx.table('content of judged windows', name)
+    ctx.table('container of judged windows', T.hist[-1]['container'])
+    if name != 'num':
+        ctx.count('content:windows judged over elements that are not their own number')
+    if e < length:
+        # the element right after the window decides nothing: is it a false value?
+        nxt_val = U.content_values(content, length)
+        if not U.sorts(seqorder):
+            if U.reverses(seqorder, rv):
+                nxt_val = nxt_val[::-1]
+            v = nxt_val[e]
+            if v is None and kind == 'int':
+                ctx.count('content:window with elements remaining whose next element is None')
+            elif not v and kind in ('int', 'str', 'obj'):
+                ctx.count('content:window with elements remaining whose next element is another false value')
+    if s > 1 and name in ('none', 'falsy', 'holes'):
+        ctx.count('content:window with false elements preceding')
+    if seqorder:
+        ctx.table('shown order of judged windows', seqorder)
+        rev = U.reverses(seqorder, rv)
+        if U.sorts(seqorder):
+            ctx.count('order:windows judged over a sorted sequence')
+        if rev:
+            ctx.count('order:windows judged over a reversed sequence')
+            if e == length:
+                ctx.count('order:window reaching the end of a reversed sequence')
+        if 'rexprv' in seqorder:
+            if T.last_shown_reversed is not None and T.last_shown_reversed != rev:
+                ctx.count('order:re-render of one compiled template with the reversal switched')
+            T.last_shown_reversed = rev
 
 
 def note_variant(ctx, T, vals, forms):
@@ -380,34 +462,75 @@ def note_judged(ctx, T, cfg, s, e, length):
         ctx.count('config:non-int items (%s)' % cfg['items'])
 
 
-def mode_source(m, prefix):
+MODE_ORDERS = (None, 'reverse', 'rexprv', 'sort+reverse', None, 'rexpr1', 'sort', 'sortx+rexprv')
+MODE_CONTENTS = ('num', 'none', 'falsy', 'holes', 'perm')
+
+
+def mode_source(m, prefix, seqorder=None):
     """<dtml-in seq previous|next ...>: the body once iff such a batch exists; variables dashed or prefix-spelled."""
     names = ['%s-sequence' % m, '%s-sequence-start-number' % m, '%s-sequence-end-number' % m,
              '%s-sequence-size' % m, '%s-sequence-start-index' % m, '%s-sequence-end-index' % m]
     body = 'B' + ''.join('|<dtml-var %s>' % U.spelled(n, prefix, True) for n in names)
-    return ('<dtml-in seq %s start=st end=en size=sz orphan=orp overlap=ovl%s>%s<dtml-else>NONE</dtml-in>'
-            % (m, ' prefix=%s' % prefix if prefix else '', body))
+    order = ''.join(' ' + a for a in U.order_attrs(U.cfg_of(seqorder=seqorder)))
+    return ('<dtml-in seq %s%s start=st end=en size=sz orphan=orp overlap=ovl%s>%s<dtml-else>NONE</dtml-in>'
+            % (m, order, ' prefix=%s' % prefix if prefix else '', body))
+
+
+class ModeTemplates(dict):
+    """(mode, prefix, seqorder) -> compiled template, compiled on first use and then long-lived."""
+
+    def __init__(self, HTML):
+        self.HTML = HTML
+
+    def __missing__(self, key):
+        t = self[key] = self.HTML(mode_source(*key))
+        return t
 
 
 def make_mode_templates(HTML):
     assert all(mode_source(m, None) == SRC_MODE[m] for m in SRC_MODE)
-    return {(m, p): HTML(mode_source(m, p)) for m in ('previous', 'next') for p in (None, 'p')}
+    mt = ModeTemplates(HTML)
+    for m in ('previous', 'next'):
+        for p in (None, 'p'):
+            mt[m, p, None]
+    return mt
+
+
+def mode_dims(length, vals):
+    """Spelling, value form, shown order and element content of the previous/next renders: a function of the
+    parameters (replayable)."""
+    h = length * 7 + vals[0] * 5 + vals[1] * 3 + vals[2] * 2 + vals[3] + vals[4]
+    k = h % 4
+    h2 = (h // 4 + length + vals[0]) % 40
+    seqorder = MODE_ORDERS[h2 % 8]
+    content = MODE_CONTENTS[h2 % 5]
+    if U.sorts(seqorder) and content not in ('num', 'perm'):
+        content = 'perm'
+    if content != 'num':
+        content += ':%d' % (h % 12)
+    rv = U.RV_VALUES[h % len(U.RV_VALUES)] if seqorder and 'rexprv' in seqorder else None
+    return k, seqorder, content, rv
 
 
 def check_modes(ctx, mon, case, length, s, e, prev_ann, next_ann):
     """<dtml-in seq previous ...> / <dtml-in seq next ...> with the same parameters: the body once iff the
     window (as the plain rendering showed it, already judged against the model) has a neighbour on that side,
     announcing the same neighbour as the plain rendering did, with size = end+1-start and index = number-1.
-    Spelling (dashed / prefix) and value form (int / text) are a function of the parameters (replayable)."""
+    Spelling (dashed / prefix), value form (int / text), the order options (reverse / sort, which change what
+    the elements of the window are but not which numbers it has) and what the elements are (numbers, None,
+    other false values) are a function of the parameters (replayable)."""
     vals = (case['start'], case['end'], case['size'], case['orphan'], case['overlap'])
-    k = (length * 7 + vals[0] * 5 + vals[1] * 3 + vals[2] * 2 + vals[3] + vals[4]) % 4
+    k, seqorder, content, rv = mode_dims(length, vals)
     prefix = 'p' if k & 1 else None
     forms = 'sssss' if k & 2 else 'iiiii'
+    ocfg = U.cfg_of(seqorder=seqorder)
     for m, ann in (('previous', prev_ann), ('next', next_ann)):
-        seq = list(range(1, length + 1)) if case['container'] != 'tuple' else tuple(range(1, length + 1))
-        c2 = dict(case, mode=m, mode_prefix=prefix, mode_forms=forms)
+        seq = U.make_seq(length, case['container'] if case['container'] in ('tuple', 'seqobj') else 'list', 'int',
+                         content)
+        c2 = dict(case, mode=m, mode_prefix=prefix, mode_forms=forms, mode_order=seqorder, mode_content=content,
+                  mode_rv=rv)
         try:
-            out = mon.mode_templates[m, prefix](seq=seq, **U.namespace(vals, forms))
+            out = mon.mode_templates[m, prefix, seqorder](seq=seq, **U.namespace(vals, forms, ocfg, rv))
         except Exception as ex:
             ctx.violation('%s-attribute render raised %s: %s' % (m, type(ex).__name__, str(ex)[:120]), c2,
                           key='mode_raise_%s_%d_%d_%d_%d_%d_%d' % (m, length, case['start'], case['end'],
@@ -418,28 +541,46 @@ def check_modes(ctx, mon, case, length, s, e, prev_ann, next_ann):
             ctx.count('modes:renders read through the prefix spelling')
         if k & 2:
             ctx.count('modes:renders with text-valued parameters')
+        if seqorder:
+            ctx.count('modes:renders with reverse / sort options')
+        if content != 'num':
+            ctx.count('modes:renders over elements that are not their own number')
         if ann is None:
             want = 'NONE'
         else:
             a, b, n = ann
             want = 'B|1|%d|%d|%d|%d|%d' % (a, b, b + 1 - a, a - 1, b - 1)
             ctx.count('modes:%s batch announced' % m)
+            if m == 'next' and not U.sorts(seqorder):
+                v = U.content_values(content, length)
+                if U.reverses(seqorder, rv):
+                    v.reverse()
+                if e < length and not v[e]:
+                    ctx.count('modes:next batch announced although the next element is a false value')
         if out != want and not (ann is not None and out.startswith('B|') and
                                 [truthy(out.split('|')[1])] + out.split('|')[2:] == [True] + want.split('|')[2:]):
-            ctx.violation('<dtml-in seq %s ...%s> (values as %s) rendered %r, the plain rendering of the same '
-                          'window %d..%d of %d announces %r'
-                          % (m, ' prefix=p' if prefix else '', 'text' if k & 2 else 'int', out[:80], s, e, length,
-                             want), c2,
+            ctx.violation('<dtml-in seq %s%s ...%s> (values as %s, elements %s) rendered %r, the plain rendering '
+                          'of the same window %d..%d of %d announces %r'
+                          % (m, ''.join(' ' + a for a in U.order_attrs(ocfg)), ' prefix=p' if prefix else '',
+                             'text' if k & 2 else 'int', content, out[:80], s, e, length, want), c2,
                           key='mode_%s_%d_%d_%d_%d_%d_%d' % (m, length, case['start'], case['end'], case['size'],
                                                           case['orphan'], case['overlap']))
 
 
 # ---------------------------------------------------------------- traversal
-def traverse(ctx, mon, T, length, sz, orp, ovl, container, forms='iiiii'):
+def traverse(ctx, mon, T, length, sz, orp, ovl, container, forms='iiiii', content='num', rv=None):
     """Follow next links from 1, then previous links back; bounded walks.  The link printed by the engine is fed
-    back as the next start in the value form given (text = the way a query string delivers it)."""
+    back as the next start in the value form given (text = the way a query string delivers it).  The walk is over
+    the shown order of the configuration (reverse / sort) and over whatever the elements are (content)."""
     case = {'mode': 'traverse', 'length': length, 'size': sz, 'orphan': orp, 'overlap': ovl,
             'container': container}
+    if content != 'num':
+        case['content'] = content
+        ctx.count('traversals over elements that are not their own number')
+    if rv is not None:
+        case['rv'] = rv
+    if T.cfg is not None and T.cfg.get('seqorder'):
+        ctx.count('traversals over a reversed / sorted sequence')
     if T.cfg is not None:
         case.update(cfg=T.cfg, forms=forms, variant=T.name, src=T.src)
         ctx.count('traversals on a variant template')
@@ -455,7 +596,7 @@ def traverse(ctx, mon, T, length, sz, orp, ovl, container, forms='iiiii'):
             ctx.violation('next-link walk did not terminate within length+2 hops', case,
                           key='trav_loop_%d_%d_%d_%d' % (length, sz, orp, ovl))
             return
-        r = check_window(ctx, mon, T, 'trav', length, st, 0, sz, orp, ovl, container, forms)
+        r = check_window(ctx, mon, T, 'trav', length, st, 0, sz, orp, ovl, container, forms, content, rv)
         if r is None:
             return
         s, e, nxt, prv, step = r
@@ -497,7 +638,7 @@ def traverse(ctx, mon, T, length, sz, orp, ovl, container, forms='iiiii'):
         if not prv < st:
             probs.append('previous link %d does not move back from %d' % (prv, st))
             break
-        r = check_window(ctx, mon, T, 'trav', length, prv, 0, sz, orp, ovl, container, forms)
+        r = check_window(ctx, mon, T, 'trav', length, prv, 0, sz, orp, ovl, container, forms, content, rv)
         if r is None:
             return
         st, prv = r[0], r[3]
@@ -529,6 +670,7 @@ class Variants:
         self.fixed = [U.T(HTML, U.build_source(cfg, (0, 0, 0, 0, 0)), cfg=cfg, name=name)
                       for name, cfg in U.designed_cfgs()]
         self.absent = [t for t in self.fixed if 'A' in t.cfg['how']]
+        self.ordered = [t for t in self.fixed if t.cfg.get('seqorder')]
         self.cache = {}
 
     def pick(self, vals):
@@ -539,6 +681,11 @@ class Variants:
                 return self.rng.choice(c)
         t = self.rng.choice(self.fixed)
         return t if U.applicable(t.cfg, vals) else self.fixed[0]
+
+    def pick_ordered(self, vals):
+        """A designed variant with a reverse / sort option that can take these values."""
+        c = [t for t in self.ordered if U.applicable(t.cfg, vals)]
+        return self.rng.choice(c)
 
     def random(self, vals):
         cfg = U.normalise(U.random_cfg(self.rng), vals)
@@ -551,7 +698,7 @@ class Variants:
         return t
 
     def container(self):
-        return self.rng.choice(['list', 'list', 'tuple', 'iter'])
+        return self.rng.choice(['list', 'list', 'tuple', 'iter', 'seqobj'])
 
 
 def run(ctx, spec):
@@ -580,9 +727,10 @@ def run(ctx, spec):
             continue
         container = 'iter' if i % 8 == 3 else ('tuple' if i % 8 == 5 else 'list')
         check_window(ctx, mon, tmpl, 'vars', n, st, en, sz, orp, ovl, container)
-        # the same grid point through one of the variant templates, values in a drawn form
-        check_window(ctx, mon, var.pick((st, en, sz, orp, ovl)), 'variant', n, st, en, sz, orp, ovl,
-                     var.container(), U.random_forms(rng))
+        # the same grid point through one of the variant templates, values in a drawn form, over drawn elements
+        t = var.pick((st, en, sz, orp, ovl))
+        check_window(ctx, mon, t, 'variant', n, st, en, sz, orp, ovl,
+                     var.container(), U.random_forms(rng), U.draw_content(rng, t.cfg), U.draw_rv(rng, t.cfg))
         if i % 16 == 7 and (st > 0 or en > 0 or sz > 0):
             # literal attributes; values <= 0 are written as absent attributes
             lit = (st if st > 0 else None, en if en > 0 else None, sz if sz > 0 else None,
@@ -599,8 +747,13 @@ def run(ctx, spec):
             # a random configuration: literal / variable / absent per parameter (values <= 0 also as literals),
             # quoting, attribute order, sequence form, prefix spelling, layout, item kind
             ctx.count('config:random configurations rendered')
-            check_window(ctx, mon, var.random((st, en, sz, orp, ovl)), 'config', n, st, en, sz, orp, ovl,
-                         var.container(), U.random_forms(rng))
+            t = var.random((st, en, sz, orp, ovl))
+            check_window(ctx, mon, t, 'config', n, st, en, sz, orp, ovl,
+                         var.container(), U.random_forms(rng), U.draw_content(rng, t.cfg), U.draw_rv(rng, t.cfg))
+        if (i // ctx.nshards) % 8 == 5 and n:
+            # the main template (exhaustive pass above: element k is k) over other elements
+            check_window(ctx, mon, tmpl, 'elements', n, st, en, sz, orp, ovl, var.container(), 'iiiii',
+                         U.draw_content(rng, None, p_num=0.0))
     # traversals: every (length,size,orphan,overlap) with overlap < effective size
     tspace = itertools.product(g['length'], g['size'], g['orphan'], g['overlap'])
     for i, (n, sz, orp, ovl) in enumerate(tspace):
@@ -611,8 +764,17 @@ def run(ctx, spec):
             traverse(ctx, mon, tmpl, n, sz, orp, ovl, 'iter' if i % 5 == 0 else 'list')
             if (i // ctx.nshards) % 2 == 0:
                 # the same walk on a variant template, the link fed back as text (or in a drawn form)
-                traverse(ctx, mon, var.pick((1, 0, sz, orp, ovl)), n, sz, orp, ovl, var.container(),
-                         rng.choice(['sssss', 'sssss', U.random_forms(rng)]))
+                t = var.pick((1, 0, sz, orp, ovl))
+                traverse(ctx, mon, t, n, sz, orp, ovl, var.container(),
+                         rng.choice(['sssss', 'sssss', U.random_forms(rng)]),
+                         U.draw_content(rng, t.cfg), U.draw_rv(rng, t.cfg))
+            else:
+                # the walk over other elements (main template), and over a reversed / sorted sequence
+                traverse(ctx, mon, tmpl, n, sz, orp, ovl, var.container(), 'iiiii',
+                         U.draw_content(rng, None, p_num=0.0))
+                t = var.pick_ordered((1, 0, sz, orp, ovl))
+                traverse(ctx, mon, t, n, sz, orp, ovl, var.container(), U.random_forms(rng),
+                         U.draw_content(rng, t.cfg), U.draw_rv(rng, t.cfg))
     # seeded larger tuples
     nrand = (6000 if ctx.tier == 'quick' else 100000) // ctx.nshards
     for _ in range(nrand):
@@ -623,15 +785,19 @@ def run(ctx, spec):
         orp = rng.randint(0, 12)
         ovl = rng.randint(0, 8)
         ctx.count('seeded larger tuples')
-        check_window(ctx, mon, tmpl, 'rand', n, st, en, sz, orp, ovl, rng.choice(['list', 'iter']))
+        check_window(ctx, mon, tmpl, 'rand', n, st, en, sz, orp, ovl,
+                     rng.choice(['list', 'iter', 'list', 'iter', 'seqobj']), 'iiiii',
+                     U.draw_content(rng, None, p_num=0.7))
         t = var.pick((st, en, sz, orp, ovl)) if rng.random() < 0.8 else var.random((st, en, sz, orp, ovl))
         check_window(ctx, mon, t, 'variant' if t.name != 'random' else 'config', n, st, en, sz, orp, ovl,
-                     var.container(), U.random_forms(rng))
+                     var.container(), U.random_forms(rng), U.draw_content(rng, t.cfg), U.draw_rv(rng, t.cfg))
         if n and rng.random() < 0.05:
             eff = sz if sz >= 1 else 7
             if ovl < eff:
-                traverse(ctx, mon, tmpl, n, sz, orp, ovl, 'list')
-                traverse(ctx, mon, var.pick((1, 0, sz, orp, ovl)), n, sz, orp, ovl, 'list', U.random_forms(rng))
+                traverse(ctx, mon, tmpl, n, sz, orp, ovl, 'list', 'iiiii', U.draw_content(rng, None, p_num=0.5))
+                t = var.pick((1, 0, sz, orp, ovl))
+                traverse(ctx, mon, t, n, sz, orp, ovl, 'list', U.random_forms(rng),
+                         U.draw_content(rng, t.cfg), U.draw_rv(rng, t.cfg))
     if ctx.shard == 0:
         ctx.sample({'template': SRC_VARS[:120] + '...', 'namespace': dict(seq='[1..5]', st=2, en=0, sz=2, orp=1, ovl=1),
                     'output': tmpl.tmpl(seq=[1, 2, 3, 4, 5], st=2, en=0, sz=2, orp=1, ovl=1)})
@@ -669,6 +835,23 @@ DECIDING = (
     ('traversals feeding the link back as text', 'no traversal fed the link back as text'),
     ('modes:renders read through the prefix spelling', 'the previous/next forms were never read through a prefix'),
     ('modes:renders with text-valued parameters', 'the previous/next forms never got text values'),
+    # what the elements are / the order they are shown in (all counted on judged windows)
+    ('content:window with elements remaining whose next element is None',
+     'no window was judged whose following element is None'),
+    ('content:window with elements remaining whose next element is another false value',
+     'no window was judged whose following element is a false value other than None'),
+    ('content:window with false elements preceding', 'no window was judged with false elements before it'),
+    ('order:windows judged over a sorted sequence', 'no window over a sorted sequence was judged'),
+    ('order:windows judged over a reversed sequence', 'no window over a reversed sequence was judged'),
+    ('order:window reaching the end of a reversed sequence',
+     'no window reaching the end of a reversed sequence was judged'),
+    ('order:re-render of one compiled template with the reversal switched',
+     'no compiled template was re-rendered with reverse_expr switching'),
+    ('traversals over elements that are not their own number', 'no traversal ran over None / false / permuted elements'),
+    ('traversals over a reversed / sorted sequence', 'no traversal ran over a reversed / sorted sequence'),
+    ('modes:renders with reverse / sort options', 'the previous/next forms were never combined with reverse / sort'),
+    ('modes:next batch announced although the next element is a false value',
+     'the next form was never rendered with a false element right after the window'),
 )
 
 
@@ -686,6 +869,17 @@ def finish(agg):
     for name in names:
         if not judged.get(name):
             inc.append('variant template never judged: ' + name)
+    contents = agg.get('tables', {}).get('content of judged windows', {})
+    for name in U.CONTENTS:
+        if not contents.get(name):
+            inc.append('no window judged over the element content: ' + name)
+    for cont in ('list', 'tuple', 'iter', 'seqobj'):
+        if not agg.get('tables', {}).get('container of judged windows', {}).get(cont):
+            inc.append('no window judged over the sequence type: ' + cont)
+    orders = agg.get('tables', {}).get('shown order of judged windows', {})
+    for so in U.SEQORDERS[1:]:
+        if not orders.get(so):
+            inc.append('no window judged under the order options: ' + so)
     # engine-internal monitors: diagnosis, never the reason for an inconclusive verdict
     diag = {}
     for k in ('opt:postcondition_evaluations', 'opt:branch start&end', 'opt:branch start only',
@@ -700,9 +894,12 @@ def finish(agg):
                          'grid_points': size,
                          'variant_templates': names,
                          'internal_monitors_diagnosis_only': diag,
-                         'explanation': 'exhaustive over the stated grid (main template, int values); every grid '
-                                        'point once more through a drawn variant template and value form; the '
-                                        'random configurations and the seeded larger tuples are extra'}}
+                         'element_contents': list(U.CONTENTS), 'order_options': list(U.SEQORDERS[1:]),
+                         'explanation': 'exhaustive over the stated grid (main template, int values, element k is '
+                                        'k); every grid point once more through a drawn variant template (incl. the '
+                                        'reverse / sort variants), value form and element content (numbers, a '
+                                        'permutation, None, false values, numbers with None holes); the random '
+                                        'configurations and the seeded larger tuples are extra'}}
 
 
 def rebuild(HTML, c):
@@ -716,7 +913,8 @@ def rebuild(HTML, c):
     for h in c.get('history', []):
         kind = t.cfg['items'] if t.cfg else 'int'
         try:
-            render(t, U.make_seq(h['length'], h['container'], kind), tuple(h['vals']), h['forms'])
+            render(t, U.make_seq(h['length'], h['container'], kind, h.get('content', 'num')), tuple(h['vals']),
+                   h['forms'], h.get('rv'))
         except Exception:
             pass
         t.hist.append(h)
@@ -735,7 +933,8 @@ def replay(ctx, rep):
     t = rebuild(HTML, c)
     if c.get('mode') == 'traverse':
         traverse(ctx, mon, t, c['length'], c['size'], c['orphan'], c['overlap'], c['container'],
-                 c.get('forms', 'iiiii'))
+                 c.get('forms', 'iiiii'), c.get('content', 'num'), c.get('rv'))
         return
     check_window(ctx, mon, t, c['mode'], c['length'], c['start'], c['end'], c['size'],
-                 c['orphan'], c['overlap'], c['container'], c.get('forms', 'iiiii'))
+                 c['orphan'], c['overlap'], c['container'], c.get('forms', 'iiiii'), c.get('content', 'num'),
+                 c.get('rv'))
